@@ -3,6 +3,7 @@
   as a decidable predicate over an observed trace.
 -/
 import ControlModel.Spec.C08
+import ControlModel.Model.CallWays
 
 namespace EnvM
 
@@ -131,5 +132,27 @@ def specC09Segs (hooks : List Hook) : List Req → St → Bool → List Hook →
 
 def specC09 (hooks : List Hook) (reqs : List Req) (tr : ITrace) : Bool :=
   specC09Segs hooks reqs .STANDBY false [] (segments tr [])
+
+/-! (7) Only the criticality of a hook and the moment decide what its failure does — not the WAY it
+    failed. The clauses above never ask how an execution failed: they are evaluated on the hooks with the
+    ways forgotten (`KHook.forget`: a failing execution is a failing execution, whether the plugin reported
+    `__call_error`, ran into its timeout, had its request cancelled, returned a Go error, panicked, was
+    missing its function, was not loaded at all, or the expression did not compile). What is added is that
+    the trace really is a trace of those ways: every probe execution it records failed (or not) the way
+    the script makes the k-th execution of that hook fail. -/
+
+def scriptedOutcome (ks : List KHook) (h k : Nat) : Option Outcome :=
+  (ks.find? (fun hk => hk.id == h)).map fun hk => hk.outcomes.getD k .ok
+
+/-- `ws`: per XE record of the trace (hook, execution, fails, way named — `1` if none). -/
+def waysFaithful (ks : List KHook) (ws : List (Nat × Nat × Bool × String)) : Bool :=
+  ws.all fun (h, k, f, w) =>
+    match scriptedOutcome ks h k with
+    | some .ok => !f
+    | some (.fail way) => f && way.name == w
+    | none => false
+
+def specC09K (ks : List KHook) (reqs : List Req) (tr : ITrace) (ws : List (Nat × Nat × Bool × String)) : Bool :=
+  specC09 (ks.map KHook.forget) reqs tr && waysFaithful ks ws
 
 end EnvM
